@@ -334,6 +334,7 @@ func ruleMapOrder(c *Ctx) []Obligation {
 	subs = append(subs, r4bPanicExitObligations(c, a, loops, scans)...)
 	obs = append(obs, r4bApplyReviews(reviewed, moReviewedOrder, subs)...)
 	obs = append(obs, determStateObligations(c, a)...)
+	obs = append(obs, r5rtFmtAddress(c)...)
 	// keys stay unique whatever the matching above produced
 	seenKey := map[string]int{}
 	for i := range obs {
